@@ -318,8 +318,17 @@ def rule_det4(ctx: Ctx) -> RuleResult:
             for g in reach:
                 for n in walk_no_nested(g.node):
                     if isinstance(n, ast.Call) and norm(n.func) in THIRD_PARTY_RAISES:
+                        local = set()
+                        p = g.module.parents.get(n)
+                        while p is not None and p is not g.node:
+                            if isinstance(p, ast.Try) and any(n is x for b in p.body for x in ast.walk(b)):
+                                for hd in p.handlers:
+                                    if hd.type is not None:
+                                        local |= {x.id for x in ast.walk(hd.type) if isinstance(x, ast.Name)}
+                            p = g.module.parents.get(p)
                         for e in THIRD_PARTY_RAISES[norm(n.func)]:
-                            need.setdefault(e, f"{norm(n.func)} in {g.qualname}")
+                            if e not in local:
+                                need.setdefault(e, f"{norm(n.func)} in {g.qualname}")
             if need:
                 rr.instances += 1
                 missing = {e: w for e, w in need.items() if e not in handler_types}
@@ -419,6 +428,17 @@ def rule_res1(ctx: Ctx) -> RuleResult:
         vararg = h.node.args.vararg.arg if h.node.args.vararg else None
         ok = False
         why = "unexpected shape"
+        if len(rets) == 1 and isinstance(rets[0].value, ast.BinOp) and isinstance(rets[0].value.op, ast.Sub):
+            # `return types - {t1 for t1, t2 in permutations(types, 2) if (t1, t2) in self.replaces}`
+            sub_ = rets[0].value.right
+            if isinstance(sub_, ast.SetComp) and len(sub_.generators) == 1 and sub_.generators[0].ifs and \
+                    isinstance(sub_.generators[0].target, ast.Tuple) and len(sub_.generators[0].target.elts) == 2:
+                t1 = norm(sub_.generators[0].target.elts[0])
+                test = sub_.generators[0].ifs[0]
+                pair_ok = isinstance(test, ast.Compare) and isinstance(test.ops[0], ast.In) and "replaces" in norm(test.comparators[0]) \
+                    and isinstance(test.left, ast.Tuple) and norm(test.left.elts[0]) == t1
+                ok = norm(sub_.elt) == t1 and pair_ok
+                why = "" if ok else "the subtracted set is not the special-case side of the matching pairs"
         if len(rets) == 1 and isinstance(rets[0].value, ast.Name):
             R = rets[0].value.id
             defs = [d for d in all_defs(h, R) if isinstance(d, (ast.Assign, ast.AnnAssign))]
